@@ -300,7 +300,8 @@ func apply(c Case, i int, op Op, a adapter, ref *odict.Dict) *ev.Verdict {
 		}
 		err := a.Map(func(k, v string) (string, error) {
 			if k == op.K {
-				return v, errStop
+				// what a failing callback returns beside its error is not a new value
+				return "77", errStop
 			}
 			return v + "1", nil
 		})
@@ -317,6 +318,9 @@ func apply(c Case, i int, op Op, a adapter, ref *odict.Dict) *ev.Verdict {
 			// property: accept old or new per key and resynchronise the model
 			for _, k := range ref.Keys {
 				got, ok := a.Get(k)
+				if k == op.K && ok && got != old[k] {
+					return ev.V(sig("failed-key"), "step %d: Map stopped by the callback's error at key %q, which now holds %q (was %q)", i, k, got, old[k])
+				}
 				if !ok || (got != old[k] && got != old[k]+"1") {
 					return ev.V(sig("value"), "step %d: after failing Map key %q holds %q,%v (was %q)", i, k, got, ok, old[k])
 				}
@@ -427,7 +431,14 @@ func oracleSet(c Case) *ev.Verdict {
 	var s *jschema.StringSet
 	ref := odict.New()
 	if c.Ctor == "new" {
-		s = jschema.NewStringSet(c.Init...)
+		// the caller's slice is its own again after the call: it is overwritten straight away
+		mine := append(make([]string, 0, len(c.Init)+4), c.Init...)
+		s = jschema.NewStringSet(mine...)
+		for i := range mine {
+			mine[i] = "@overwritten-by-the-caller"
+		}
+		mine = append(mine[:0], "@x1", "@x2", "@x3")
+		_ = mine
 		for _, k := range c.Init {
 			ref.Set(k, "")
 		}
